@@ -133,7 +133,7 @@ func (d *ParserCustomData) tryMatchCustomDice(p *parser) (*customDiceMatch, bool
 				continue
 			}
 			matchedText := stream.Current()
-			groups := result.Groups
+			groups := cloneStrings(result.Groups) // 下面要改写 groups[0]，不能写在解析函数自己的切片上
 			if len(groups) == 0 {
 				groups = []string{matchedText}
 			} else if groups[0] == "" {
